@@ -210,7 +210,10 @@ def zone_map_definite_no(ctx, P, rule):
         for v, facts, bi, ln in return_table(P, f):
             if not (v[0] == "const" and v[1] in ("0", "false")) or bi not in after:
                 continue
-            definite = any(x[0] == "variant" and x[1] == "core::cmp::Ordering" and any(t.endswith("compare_values") for t in x[3]) for x in facts)
+            # an order was determined: the comparison result is known to be Some(..) (matched on, unwrapped by let-else or
+            # `?`), or one of its Ordering variants
+            definite = any(x[0] == "variant" and any(t.endswith("compare_values") for t in x[3]) and
+                           ((x[1] == "core::cmp::Ordering") or (x[1] == "core::option::Option" and x[2] == "Some")) for x in facts)
             if not definite:
                 bad.append(ln)
         ctx.ob(rule, "%s#no-only-on-definite-order" % short_id(f.id), not bad,
